@@ -164,7 +164,7 @@ def build(run):
             f.rename_fn('add_node_if_none__vacuity_probe')
             run.extra.setdefault('vacuity_probe_labels', []).append(f.label)
         f.contract(ADD_SPEC.split('ensures')[0] + 'ensures false,' if probe else ADD_SPEC)
-        f.insert_at(r'\bself\.index\.insert\(', "            proof { assert(self.graph@.drop_last() =~= old(self).graph@); }", where='after')
+        f.insert_at_end("        proof { if !has_path(*old(self), *path) { assert(self.graph@.drop_last() =~= old(self).graph@); } }")
         unit.add(f)
     # ---- remove (+ vacuity probe)
     for probe in (False, True):
